@@ -106,7 +106,7 @@ impl WriteAheadLog {
         Ok(())
     }
 
-    fn repair(&mut self) -> Result<(), DbError> {
+    pub fn repair(&mut self) -> Result<(), DbError> {
         let size = self.file.seek(SeekFrom::End(0))?;
         self.file.rewind()?;
         let mut pos = 0_u64;
